@@ -3,16 +3,23 @@
 package main
 
 import (
+	"bytes"
 	"context"
+	"encoding/json"
 	"fmt"
 	"math/big"
+	"net/http/httptest"
+	"net/url"
 	"os"
+	"sort"
 	"strings"
 
 	ledger "github.com/formancehq/ledger/internal"
 	"github.com/formancehq/ledger/internal/storage/ledgerstore"
+	"github.com/formancehq/ledger/xverif/lib/engineh"
 	"github.com/formancehq/ledger/xverif/lib/evid"
 	"github.com/formancehq/ledger/xverif/lib/pgmini"
+	"github.com/formancehq/ledger/xverif/lib/recbackend"
 	sharedapi "github.com/formancehq/stack/libs/go-libs/api"
 	"github.com/formancehq/stack/libs/go-libs/bun/bunpaginate"
 	"github.com/formancehq/stack/libs/go-libs/metadata"
@@ -28,7 +35,12 @@ func c17StoreWalks(rep *evid.Reporter, maxN int) (walks, fetches int) {
 		return
 	}
 	ctx := context.Background()
+	sizes := []int{}
 	for n := 0; n <= maxN; n++ {
+		sizes = append(sizes, n)
+	}
+	sizes = append(sizes, 17) // more than the default page size of 15
+	for _, n := range sizes {
 		st := &c04State{db: pgmini.New(), logs: map[string][]*ledger.ChainedLog{}, bad: map[string]bool{}}
 		if err := st.db.LoadSchema("b1", string(ddl)); err != nil {
 			rep.Undecide("schema does not load in the interpreter: " + err.Error())
@@ -69,6 +81,7 @@ func c17StoreWalks(rep *evid.Reporter, maxN int) (walks, fetches int) {
 					wantAcc = append(wantAcc, fmt.Sprintf("acc%d", i))
 				}
 			}
+			sort.Strings(wantAcc) // address order is textual: acc10 sorts before acc2
 			if !filtered && n > 0 {
 				wantAcc = append(wantAcc, "world")
 			}
@@ -134,7 +147,117 @@ func c17StoreWalks(rep *evid.Reporter, maxN int) (walks, fetches int) {
 				}
 			}
 		}
+		// the same listings as a client walks them: GET with pageSize, then ?cursor=<next/previous> only, on v1 and v2
+		if n == 0 || n == 3 || n == maxN || n == 17 {
+			w, f := c17HTTPWalks(rep, st, n)
+			walks += w
+			fetches += f
+		}
 		_ = store.GetDB().Close()
+	}
+	return
+}
+
+func c17HTTPWalks(rep *evid.Reporter, st *c04State, n int) (walks, fetches int) {
+	s := st.store("l1")
+	defer s.GetDB().Close()
+	b := recbackend.New("l1")
+	b.R = recbackend.Reads{GetAccountsWithVolumes: s.GetAccountsWithVolumes, CountAccounts: s.CountAccounts, GetAggregatedBalances: s.GetAggregatedBalances,
+		GetLogs: s.GetLogs, CountTransactions: s.CountTransactions, GetTransactions: s.GetTransactions,
+		GetAccountWithVolumes: s.GetAccountWithVolumes, GetTransactionWithVolumes: s.GetTransactionWithVolumes}
+	router := newRouter(b, false)
+	var txDesc, accAsc, logDesc []string
+	for i := n - 1; i >= 0; i-- {
+		txDesc = append(txDesc, fmt.Sprint(i))
+		logDesc = append(logDesc, fmt.Sprint(i))
+	}
+	for i := 0; i < n; i++ {
+		accAsc = append(accAsc, fmt.Sprintf("acc%d", i))
+	}
+	sort.Strings(accAsc)
+	if n > 0 {
+		accAsc = append(accAsc, "world")
+	}
+	type listing struct {
+		path string
+		want []string
+		key  func(item map[string]interface{}) string
+	}
+	for _, api := range []string{"v2/", ""} {
+		idKey := "id"
+		if api == "" {
+			idKey = "txid"
+		}
+		listings := []listing{
+			{"transactions", txDesc, func(it map[string]interface{}) string { return fmt.Sprint(it[idKey]) }},
+			{"accounts", accAsc, func(it map[string]interface{}) string { return fmt.Sprint(it["address"]) }},
+			{"logs", logDesc, func(it map[string]interface{}) string { return fmt.Sprint(it["id"]) }},
+		}
+		if api == "" {
+			listings = append(listings, listing{"balances", accAsc, func(it map[string]interface{}) string {
+				for k := range it {
+					return k
+				}
+				return "?"
+			}})
+		}
+		for _, l := range listings {
+			for _, ps := range []int{0, 1, 2, n, n + 1} {
+				if ps < 0 || (ps == 0 && n != 17 && n != 3) {
+					continue
+				}
+				first := "/api/ledger/" + api + "l1/" + l.path
+				eff := uint64(ps)
+				if ps == 0 {
+					eff = 15 // the documented default page size
+				} else {
+					first += fmt.Sprintf("?pageSize=%d", ps)
+				}
+				name := fmt.Sprintf("%s n=%d GET %s%s pageSize=%d", l.path, n, api, l.path, ps)
+				replay := map[string]interface{}{"engine": "cursorwalk-http", "listing": name}
+				var st2, tr int64
+				ok := walkGraph(l.want, eff, func(tok string) ([]string, string, string, bool, error) {
+					target := first
+					if tok != "" {
+						target = "/api/ledger/" + api + "l1/" + l.path + "?cursor=" + url.QueryEscape(tok)
+					}
+					req := httptest.NewRequest("GET", target, nil).WithContext(engineh.QuietCtx())
+					w := httptest.NewRecorder()
+					router.ServeHTTP(w, req)
+					var body struct {
+						Cursor struct {
+							PageSize int                      `json:"pageSize"`
+							HasMore  bool                     `json:"hasMore"`
+							Previous string                   `json:"previous"`
+							Next     string                   `json:"next"`
+							Data     []map[string]interface{} `json:"data"`
+						} `json:"cursor"`
+						ErrorMessage string `json:"errorMessage"`
+					}
+					dec := json.NewDecoder(bytes.NewReader(w.Body.Bytes()))
+					dec.UseNumber()
+					_ = dec.Decode(&body)
+					if w.Code != 200 {
+						return nil, "", "", false, fmt.Errorf("GET %s answers %d %s", target, w.Code, body.ErrorMessage)
+					}
+					if body.Cursor.PageSize != int(eff) {
+						return nil, "", "", false, fmt.Errorf("the cursor reports pageSize %d, the request asked for %d", body.Cursor.PageSize, eff)
+					}
+					var items []string
+					for _, it := range body.Cursor.Data {
+						items = append(items, l.key(it))
+					}
+					return items, body.Cursor.Next, body.Cursor.Previous, body.Cursor.HasMore, nil
+				}, func(k, why string) {
+					rep.Violation("http-walk-"+k+":"+l.path, why+" ["+name+"]", replay)
+				}, &st2, &tr)
+				walks++
+				fetches += int(tr)
+				if !ok {
+					rep.Undecide("http-level walk: the interpreter cannot execute a statement of " + name)
+				}
+			}
+		}
 	}
 	return
 }
